@@ -1178,3 +1178,13 @@ NP('n_ref4_small_files', ALL, 'R29: probe/runtime/payload/error/config', 'selfte
 NP('n_ref4_probe_gossip_broadcast', ALL, 'R30: probe_random_member/gossip/broadcast/choose_and_send/announce_to_down', 'selftest/neutral/R30.diff')
 NP('n_ref4_constructors', ALL, 'R31: constructors and accessors', 'selftest/neutral/R31.diff')
 NP('n_ref4_janitorial', ALL, 'R32: 14 janitorial edits over three files', 'selftest/neutral/R32.diff')
+
+# ---------------------------------------------------------------- neutral: private functions renamed
+N('n_rename_private_fns', ALL, 'two private functions renamed (every use updated): rename tolerance by container + signature',
+  (LIB, 'fn adjust_connection_state(&mut self, runtime: impl Runtime<T>) {', 'fn sync_connection_state(&mut self, runtime: impl Runtime<T>) {'),
+  (LIB, '        self.adjust_connection_state(runtime);\n\n        Ok(())', '        self.sync_connection_state(runtime);\n\n        Ok(())'),
+  (LIB, '                        self.adjust_connection_state(&mut runtime);', '                        self.sync_connection_state(&mut runtime);'),
+  (LIB, '    fn become_undead(&mut self, mut runtime: impl Runtime<T>) {', '    fn go_defunct(&mut self, mut runtime: impl Runtime<T>) {'),
+  (LIB, '        self.become_undead(&mut runtime);', '        self.go_defunct(&mut runtime);'),
+  (LIB, '                        self.become_undead(runtime);', '                        self.go_defunct(runtime);'),
+  (LIB, '                    self.become_undead(runtime);', '                    self.go_defunct(runtime);'))
